@@ -90,7 +90,13 @@ def uses_libm(lines):
     cmds = set()
     for l in lines:
         toks = l.split(' ')
-        cmds.add(toks[2] if len(toks) > 2 and toks[1] == '=' else toks[0])
+        has_dst = len(toks) > 2 and toks[1] == '='
+        cmd = toks[2] if has_dst else toks[0]
+        cmds.add(cmd)
+        if cmd == 'zero':
+            # `zero tanh`, `zero sigmoid`, … : the zero value of a component struct is that component
+            args = toks[3:] if has_dst else toks[1:]
+            if args: cmds.add(args[0])
     if cmds & LIBM_CMDS:
         return True
     # backward rules that go through libm themselves: Div (b.Pow(2))
@@ -231,6 +237,14 @@ def run_batch(progs, race=False, env_extra=None, cmd_timeout_ms=None):
         r.diff = compare(r.h, r.d, r.exact)
         if r.diff is not None:
             bad.append((r, dtext[res.index(r)]))
+    if bad and os.environ.get('VERIF_DUMP_BAD'):
+        # debugging aid: keep the whole shard in which a disagreement occurred (harness input and driver input)
+        d = os.environ['VERIF_DUMP_BAD']; os.makedirs(d, exist_ok=True)
+        open(os.path.join(d, 'shard_%d.in' % os.getpid() + '_%d' % id(res)), 'w').write(text)
+        open(os.path.join(d, 'shard_%d.drv' % os.getpid() + '_%d' % id(res)), 'w').write(''.join(dtext))
+        open(os.path.join(d, 'shard_%d.hout' % os.getpid() + '_%d' % id(res)), 'w').write(out)
+        open(os.path.join(d, 'shard_%d.dout' % os.getpid() + '_%d' % id(res)), 'w').write(dout)
+        open(os.path.join(d, 'shard_%d.bad' % os.getpid() + '_%d' % id(res)), 'w').write('\n'.join('%s %s' % (r.prog.name, r.diff) for r, _ in bad))
     if bad:
         rc3, mout, merr = _run(DRIVER, ''.join(t for _, t in bad), args=['--bcast=mean'])
         mp = {n: ls for n, ls, done in split_output(mout)}
